@@ -286,6 +286,59 @@ let c02 (rest : string) : string =
        | _ -> failwith "c02: bad header")
   | [] -> failwith "c02: empty"
 
+(* ---------- C11: handles, names, channels ---------- *)
+let lerr_str = function
+  | Ids.ENotMapped -> "SessionNotMapped" | Ids.EDupName -> "DuplicatedLinkName" | Ids.EHandleInUse -> "HandleInUse"
+  | Ids.ENameNotFound -> "RemoteAttachingLinkNameNotFound" | Ids.EUnattached -> "UnattachedHandle"
+
+let c11_lnk (rest : string) : string =
+  let ops = split_on rest ';' in
+  let buf = Buffer.create 256 in
+  let _ = Stdlib.List.fold_left (fun s o ->
+    let op = match words o with
+      | ["A"; name] -> Ids.OpAlloc (n_of_string name)
+      | ["I"; name; ih] -> Ids.OpInAttach (n_of_string name, n_of_string ih)
+      | ["D"; ih] -> Ids.OpInDetach (n_of_string ih)
+      | ["O"; h] -> Ids.OpOutDetach (n_of_string h)
+      | ["R"; ih] -> Ids.OpRoute (n_of_string ih)
+      | _ -> failwith ("lnk: bad op " ^ o) in
+    let (s', r) = Ids.lstep s op in
+    Buffer.add_string buf (match r with
+      | Ids.LOk h -> "ok " ^ str_n h
+      | Ids.LErr e -> "err " ^ lerr_str e
+      | Ids.LUnit -> "unit");
+    Buffer.add_string buf " ; "; s') Ids.ls_init ops in
+  Buffer.contents buf
+
+let c11_chn (rest : string) : string =
+  match split_on rest '|' with
+  | hdr :: ops ->
+      let ops = match ops with [] -> [] | [o] -> split_on o ';' | _ -> failwith "chn: too many |" in
+      (match words hdr with
+       | [lm; rm] ->
+           let buf = Buffer.create 256 in
+           let _ = Stdlib.List.fold_left (fun s o ->
+             let op = match words o with
+               | ["S"] -> Ids.OpAllocSession
+               | ["X"; c] -> Ids.OpDeallocSession (n_of_string c)
+               | ["B"; inc; rem] -> Ids.OpInBegin (n_of_string inc, opt_n rem)
+               | ["E"; inc] -> Ids.OpInEnd (n_of_string inc)
+               | ["R"; inc] -> Ids.OpRouteCh (n_of_string inc)
+               | _ -> failwith ("chn: bad op " ^ o) in
+             let (s', r) = Ids.cstep s op in
+             Buffer.add_string buf (match r with
+               | Ids.COk c -> "ok " ^ str_n c
+               | Ids.CErr Ids.EChannelMax -> "err ChannelMaxReached"
+               | Ids.CErr Ids.ENotFound -> "err NotFound"
+               | Ids.CErr Ids.EIllegalState -> "err IllegalState"
+               | Ids.CErr Ids.ENotImplemented -> "err NotImplemented"
+               | Ids.CUnit -> "unit"
+               | Ids.CPanic -> "panic");
+             Buffer.add_string buf " ; "; s') (Ids.cn_init (n_of_string lm) (n_of_string rm)) ops in
+           Buffer.contents buf
+       | _ -> failwith "chn: bad header")
+  | [] -> failwith "chn: empty"
+
 let dispatch (line : string) : string =
   match Stdlib.String.index_opt line ' ' with
   | None -> failwith "no model tag"
@@ -296,6 +349,8 @@ let dispatch (line : string) : string =
        | "c07" -> c07 rest
        | "c08" -> c08 rest
        | "c02" -> c02 rest
+       | "lnk" -> c11_lnk rest
+       | "chn" -> c11_chn rest
        | "xfer" -> frame_xfer rest
        | "other" -> frame_other rest
        | "ldf" -> frame_ldf rest
